@@ -1284,8 +1284,21 @@ def run(scn, ch, log=False):
                     # handler finished = task done; our handler only runs recorded calls and joins its actors
                     waiting_for = [i for i, t in sd.tasks if i != 0 and not t.done()]
                     if not waiting_for:
+                        where, co_ = [], ht.get_coro()
+                        while co_ is not None and len(where) < 12:
+                            fr_ = getattr(co_, "cr_frame", None) or getattr(co_, "gi_frame", None) or getattr(co_, "ag_frame", None)
+                            if fr_ is not None:
+                                where.append(f"{fr_.f_code.co_filename.rsplit('/', 1)[-1]}:{fr_.f_code.co_name}:{fr_.f_lineno}")
+                            co_ = getattr(co_, "cr_await", None) or getattr(co_, "gi_yieldfrom", None) or getattr(co_, "ag_await", None)
+                        where = where[-4:]
+                        if where and where[-1].startswith("tasks.py:sleep") and any(x.startswith("_ws13.py:actor:") for x in where):
+                            # parked in the pause the scenario puts between two operations of the handler's own program (the
+                            # run's time horizon ended first): nothing of aiohttp is pending
+                            probe("handler_in_scenario_pause_at_horizon")
+                            continue
                         violate("tasks_finished", "srv:handler_task_running_after_end",
-                                f"server handler task still running at quiescence with no call in progress (lost={lost}, closed={closed})")
+                                f"server handler task still running at quiescence with no call in progress (lost={lost}, closed={closed}); "
+                                f"it is parked at {where}")
         # sessions whose peer went away without a close frame are abnormal for the close-code rule
         if peer is not None:
             if peer.rx:
